@@ -449,6 +449,10 @@ def resize_fill(F, S):
 
 def check(F, run, tier):
     S = Summaries(F)
+    # a failed or short file read must not leave the shared stream failed: later seeks and reads on the same reader would be ignored
+    from ..rules_archive import r_fstream
+    for _nm in ("ReadImplementation", "ReadPartial"):
+        run.add(r_fstream(F, S, F.fn("OP2Utility::Stream::FileReader::" + _nm, nparams=2)))
     run.declined = DECLINED
     run.explanation = (
         "Static analysis of the writer classes. Decided: R-CURSOR/R-NOWRAP/R-ATOMIC on MemoryWriter (every store to "
